@@ -54,7 +54,7 @@ def measure(cell, seed, npts):
                 de = c.d5(lambda x: f(g, x, a0), a1, h)
                 rhs = c.gamma_of_a(a1, g) / c.beta_of_a(a1, bvec)
                 res = abs(de / e - rhs) / abs(rhs)
-            worst = max(worst, res)
+            worst = c.worse(worst, res)
         return {"dec": c.decades(worst), "raw": worst, "resolved": True}
 
     # QED, alpha_em fixed during the step
@@ -93,5 +93,5 @@ def measure(cell, seed, npts):
             e = f(a1, a0, mu2t)
             de = c.d5(lambda x: f(a1, a0, np.exp(x)), lt, 2e-3)
             res = abs(de / e + gpure) / abs(gpure)
-        worst = max(worst, res)
+        worst = c.worse(worst, res)
     return {"dec": c.decades(worst), "raw": worst, "resolved": True}
